@@ -40,23 +40,56 @@ func init() {
 		if tier == "thorough" {
 			maxg = 3
 		}
-		if tier != "diagnostic" {
-			maxg = -1 // the whole-run harness against generator contracts is kept for further work only: on the unchanged
-			// tree it has counterexamples against the contracts that do not replay (contract or harness still wrong)
-		}
 		for nn := int64(0); nn <= maxg; nn++ {
 			for nq := int64(0); nq <= maxg; nq++ {
 				nn, nq := nn, nq
 				s.Instances = append(s.Instances, run.Instance{Pkg: "picker", Func: "VpH_C16_run", Params: map[string]int64{"nn": nn, "nq": nq},
-					Opt: run.Options{LoopBound: 12, TimeoutMs: 300000, Setup: func(x *vexec.Exec, w *run.World) { pickerContracts(x, w, int(nn), int(nq)) }}})
+					Opt: run.Options{Abstract: true, LoopBound: 12, TimeoutMs: 300000, PanicMode: "ignore", Setup: func(x *vexec.Exec, w *run.World) { pickerContracts(x, w, int(nn), int(nq)) }}})
 			}
 		}
+		// the generator halves split the moves the way the stage contracts say (real generators, per from-square)
+		split := sampleFrom(func() []run.Instance {
+			var out []run.Instance
+			for stm := int64(0); stm < 2; stm++ {
+				for from := int64(0); from < 64; from++ {
+					out = append(out, run.Instance{Pkg: "movegen", Func: "VpH_C16_split", Params: map[string]int64{"stm": stm, "from": from}, Opt: run.Options{Setup: genObserver}})
+				}
+			}
+			return out
+		}(), seed+3, map[bool]int{false: 10, true: 64}[tier == "thorough"])
+		s.Instances = append(s.Instances, split...)
+		s.Pkgs = append(s.Pkgs, "movegen", "board", "attacks")
+		s.SliderSummary = true
+		s.Confirm = &ConfirmRun{"picker", "VpV_C16_sweep", "VpV_C16_case"}
 		s.Bounds = append(s.Bounds,
 			"selection step: frames of 1..6 entries with arbitrary moves, weights and yielded prefix",
-		)
-		s.Outside = append(s.Outside, "the staged run of the picker as a whole (hash move first, every generated move exactly once): a harness against generator contracts exists (tier diagnostic) but does not close; only the selection step and the weight bands are claimed")
+			"staged run as a whole: the real Picker.Next iterated to exhaustion on an arbitrary board (64 arbitrary cells, arbitrary e.p. square and side) with ANY 15-bit hash move; generators, pseudo-legality test and rankers under contract: 0..2 (quick) / 0..3 (thorough) noisy and as many quiet moves, all arbitrary encodings that are noisy resp. quiet by the split specification VpNoisy; every generated move is yielded exactly once, nothing else is, the hash move comes first iff pseudo-legal",
+			"generator split: the REAL GenNoisy emits only captures/promotions/en-passant captures and the REAL GenNotNoisy none of them, from an arbitrary valid position, per (side, from-square) case with symbolic target and promotion bits: quick 10 from-squares per side, thorough all 64",
+			"contract-level counterexamples of the staged run are reported only after the native sweep (real picker on the repo's test positions, every generated move and some foreign encodings as hash move) reproduces a failure; otherwise INCONCLUSIVE")
+		s.Stubs = append(s.Stubs, "staged run: movegen.GenNoisy/GenNotNoisy -> arbitrary duplicate-free lists of the given lengths obeying the split specification; Board.IsPseudoLegal -> membership in those lists (C05); MoveRanker.RankNoisy/RankQuiet -> arbitrary values in the capture bands / quiet band (this check's band obligations)")
+		s.Outside = append(s.Outside, "positions with more than 3+3 generated moves are covered only through the selection-step induction (the stage logic does not depend on the list lengths beyond the loops unrolled here)")
 		return s
 	}
+}
+
+// pickerRankStubs replaces the two rankers by their band contracts (what the band obligations of C16 establish).
+func pickerRankStubs(x *vexec.Exec, w *run.World) {
+	c := x.C
+	k := 0
+	x.Stub("(*"+run.ModPath+"/heur.MoveRanker).RankNoisy", func(x *vexec.Exec, a []vexec.Val, g *sym.Term) vexec.Val {
+		k++
+		r := c.Var(16, fmt.Sprintf("noisy_rank#%d", k))
+		good := c.And(c.Sle(c.Const(16, 7168), r), c.Slt(r, c.Const(16, 16384)))
+		bad := c.And(c.Sle(r, c.Const(16, uint64(0x10000-7168))), c.Slt(c.Const(16, uint64(0x10000-16384+1)), r)) // above the yield threshold -HashMove+1
+		x.Assume(c.Or(good, bad))
+		return r
+	})
+	x.Stub("(*"+run.ModPath+"/heur.MoveRanker).RankQuiet", func(x *vexec.Exec, a []vexec.Val, g *sym.Term) vexec.Val {
+		k++
+		r := c.Var(16, fmt.Sprintf("quiet_rank#%d", k))
+		x.Assume(c.And(c.Sle(c.Const(16, uint64(0x10000-3072)), r), c.Sle(r, c.Const(16, 3072))))
+		return r
+	})
 }
 
 // pickerContracts installs the generator / pseudo-legality / ranker contracts for the whole-run picker harness.
@@ -65,20 +98,27 @@ func pickerContracts(x *vexec.Exec, w *run.World, nn, nq int) {
 	mpkg := w.Pkgs[run.ModPath+"/move"]
 	allocSel := w.Prog.MethodSets.MethodSet(types.NewPointer(mpkg.Type("Store").Type())).Lookup(mpkg.Pkg, "Alloc")
 	allocFn := w.Prog.MethodValue(allocSel)
+	noisyFn := w.Func("board", "VpNoisy")
 	var gen []*sym.Term
 	seen := map[string]bool{}
-	mk := func(kind string, n int) func(x *vexec.Exec, a []vexec.Val, g *sym.Term) vexec.Val {
+	mk := func(kind string, n int, wantNoisy bool) func(x *vexec.Exec, a []vexec.Val, g *sym.Term) vexec.Val {
 		return func(x *vexec.Exec, a []vexec.Val, g *sym.Term) vexec.Val {
-			// the executor may reach a generation stage again on a merged (infeasible) path: the list is the same one
+			// the executor reaches a generation stage again on other (mutually exclusive) paths: the list is the same one
 			first := !seen[kind]
 			seen[kind] = true
 			for i := 0; i < n; i++ {
 				m := c.ZExt(c.Var(15, fmt.Sprintf("%s_move[%d]", kind, i)), 16)
 				if first {
 					for _, o := range gen {
-						x.Assume(c.Not(c.Eq(m, o))) // duplicate-free, lists disjoint
+						x.Assume(c.Not(c.Eq(m, o))) // duplicate-free, lists disjoint (C01)
 					}
 					x.Assume(c.Not(c.Eq(m, c.Const(16, 0))))
+					isNoisy := x.Call(noisyFn, []vexec.Val{a[1], m}, nil, c.True).(*sym.Term)
+					if wantNoisy {
+						x.Assume(isNoisy)
+					} else {
+						x.Assume(c.Not(isNoisy))
+					}
 					gen = append(gen, m)
 				}
 				x.Call(allocFn, []vexec.Val{a[0], m}, nil, g)
@@ -86,8 +126,8 @@ func pickerContracts(x *vexec.Exec, w *run.World, nn, nq int) {
 			return nil
 		}
 	}
-	x.Stub(run.ModPath+"/movegen.GenNoisy", mk("noisy", nn))
-	x.Stub(run.ModPath+"/movegen.GenNotNoisy", mk("quiet", nq))
+	x.Stub(run.ModPath+"/movegen.GenNoisy", mk("noisy", nn, true))
+	x.Stub(run.ModPath+"/movegen.GenNotNoisy", mk("quiet", nq, false))
 	x.Stub("(*"+run.ModPath+"/board.Board).IsPseudoLegal", func(x *vexec.Exec, a []vexec.Val, g *sym.Term) vexec.Val {
 		// C05: accepted iff generated. The lists are fixed by name, so the answer can be given before generation.
 		m := a[1].(*sym.Term)
@@ -100,29 +140,22 @@ func pickerContracts(x *vexec.Exec, w *run.World, nn, nq int) {
 		}
 		return r
 	})
-	k := 0
-	x.Stub("(*"+run.ModPath+"/heur.MoveRanker).RankNoisy", func(x *vexec.Exec, a []vexec.Val, g *sym.Term) vexec.Val {
-		k++
-		r := c.Var(16, fmt.Sprintf("noisy_rank#%d", k))
-		good := c.And(c.Sle(c.Const(16, 7168), r), c.Slt(r, c.Const(16, 16384)))
-		bad := c.And(c.Sle(r, c.Const(16, uint64(0x10000-7168))), c.Slt(c.Const(16, uint64(0x10000-16384)), r))
-		x.Assume(c.Or(good, bad))
-		return r
-	})
-	x.Stub("(*"+run.ModPath+"/heur.MoveRanker).RankQuiet", func(x *vexec.Exec, a []vexec.Val, g *sym.Term) vexec.Val {
-		k++
-		r := c.Var(16, fmt.Sprintf("quiet_rank#%d", k))
-		x.Assume(c.And(c.Sle(c.Const(16, uint64(0x10000-3072)), r), c.Sle(r, c.Const(16, 3072))))
-		return r
-	})
+	pickerRankStubs(x, w)
 	x.Stub(run.ModPath+"/picker.vpGenCount", func(x *vexec.Exec, a []vexec.Val, g *sym.Term) vexec.Val {
-		return c.Const(64, uint64(len(gen)))
+		return c.Const(64, uint64(nn+nq))
 	})
 	x.Stub(run.ModPath+"/picker.vpGenMove", func(x *vexec.Exec, a []vexec.Val, g *sym.Term) vexec.Val {
 		i := a[0].(*sym.Term)
-		if !i.IsConst() || int(i.C) >= len(gen) {
+		if !i.IsConst() {
 			return c.Const(16, 0)
 		}
-		return gen[i.C]
+		k := int(i.C)
+		switch {
+		case k < nn:
+			return c.ZExt(c.Var(15, fmt.Sprintf("noisy_move[%d]", k)), 16)
+		case k < nn+nq:
+			return c.ZExt(c.Var(15, fmt.Sprintf("quiet_move[%d]", k-nn)), 16)
+		}
+		return c.Const(16, 0)
 	})
 }
